@@ -235,6 +235,19 @@ class StreamWriter(AbstractStreamWriter):
         self._headers_written = False
         self._headers_buf = buf
 
+    def discard_unsent_headers(self) -> None:
+        """Forget a message head that is buffered but not sent, with its framing.
+
+        Another message (an error response, usually) is going to be written
+        instead: chunking, compression and the declared length chosen for the
+        first one must not shape its body.
+        """
+        if self._headers_buf is not None and not self._headers_written:
+            self._headers_buf = None
+            self.chunked = False
+            self._compress = None
+            self.length = None
+
     def send_headers(self) -> None:
         """Force sending buffered headers if not already sent."""
         if not self._headers_buf or self._headers_written:
